@@ -146,12 +146,46 @@ def rewrite_body(s):
     # x.neg() on a local -> (-x)
     s, k = re.subn(r'(?<![A-Za-z0-9_.])([a-z_][a-z0-9_]*)\.neg\(\)', r'(-\1)', s)
     _count('R10.neg', k)
+    # R13: Option::map with a closure -> its definition as a match (Verus does not infer closure specs)
+    s = rewrite_map_closure(s)
     # R11: reserved identifiers
     s, k = re.subn(r'(?<![A-Za-z0-9_])int(?![A-Za-z0-9_])', 'int_', s)
     _count('R11.int', k)
     s, k = re.subn(r'(?<![A-Za-z0-9_])nat(?![A-Za-z0-9_])', 'nat_', s)
     _count('R11.nat', k)
     return s
+
+
+def rewrite_map_closure(s):
+    while True:
+        m = re.search(r'\.map\(\|([a-z_][a-z0-9_]*)\|', s)
+        if not m:
+            return s
+        op = m.start() + len('.map')
+        end = rsx.match_close(s, op)
+        body = s[m.end():end - 1].strip()
+        # receiver: scan backwards to an unbalanced opener or a statement boundary
+        i = m.start() - 1
+        depth = 0
+        while i >= 0:
+            ch = s[i]
+            if ch in ')]}':
+                depth += 1
+            elif ch in '([{':
+                if depth == 0:
+                    break
+                depth -= 1
+            elif ch in ';=,' and depth == 0:
+                break
+            i -= 1
+        recv = s[i + 1:m.start()]
+        lead = recv[:len(recv) - len(recv.lstrip())]
+        recv = recv.strip()
+        if not recv:
+            raise AnchorLost('R13: empty receiver for .map(closure)')
+        _count('R13.map_closure')
+        repl = '%s(match %s { Some(%s) => Some(%s), None => None })' % (lead, recv, m.group(1), body)
+        s = s[:i + 1] + repl + s[end:]
 
 
 def _flat(m):
@@ -179,9 +213,10 @@ class Contract:
 
     def __init__(self, pre=(), ok=None, post=(), ret='r', entry=None, loops=(), value=None,
                  stub=False, props=(), no_unwind=False, exit_hint=None, opaque_body=False,
-                 extra_attrs=(), rlimit=None):
+                 extra_attrs=(), rlimit=None, out_type=None, stub_in_D=False):
         self.pre = list(pre)
-        self.ok = None if ok is None else list(ok)
+        # ok entries: 'expr' or ('name', 'expr')
+        self.ok = None if ok is None else [o if isinstance(o, tuple) else ('ok%d' % i, o) for i, o in enumerate(ok)]
         self.post = list(post)
         self.ret = ret
         self.entry = entry
@@ -192,6 +227,8 @@ class Contract:
         self.exit_hint = exit_hint
         self.extra_attrs = list(extra_attrs)
         self.rlimit = rlimit
+        self.out_type = out_type
+        self.stub_in_D = stub_in_D
 
 
 STD_OP_TRAITS = {
@@ -232,7 +269,62 @@ class Emitter:
         return ''.join(lines), linemap
 
 
-def weave_fn(item_text, key, contract, mode, em, in_trait_impl_of_std_op=False, is_trait_decl=False):
+def parse_sig(sig):
+    """`[pub] [const] [unsafe] fn name<G>(params) -> Ret [where ...]` -> dict"""
+    m = re.search(r'\bfn\s+([A-Za-z_][A-Za-z0-9_]*)', sig)
+    if not m:
+        raise AnchorLost('no fn name in %r' % sig[:60])
+    name = m.group(1)
+    i = sig.find('(', m.end())
+    end = rsx.match_close(sig, i)
+    params = []
+    for a in _split_args(sig[i + 1:end - 1]):
+        a = a.strip()
+        if a in ('self', 'mut self'):
+            params.append(('self', None, 'self'))
+        elif a in ('&self', "&'a self"):
+            params.append(('self', None, '&self'))
+        elif a == '&mut self':
+            params.append(('self', None, '&mut self'))
+        else:
+            nm, ty = a.split(':', 1)
+            nm = nm.strip()
+            nm = re.sub(r'^mut\s+', '', nm)
+            params.append((nm, ty.strip(), None))
+    rest = sig[end:]
+    ret = None
+    am = re.search(r'->\s*(.*)$', rest, re.S)
+    if am:
+        ret = am.group(1).strip()
+        wm = re.search(r'\bwhere\b', ret)
+        if wm:
+            ret = ret[:wm.start()].strip()
+    return {'name': name, 'params': params, 'ret': ret}
+
+
+def ghost_decls(sig):
+    """Trait-level ghost members for a crate trait method (see DESIGN 5)."""
+    ps = parse_sig(sig)
+    plist = []
+    args = []
+    for nm, ty, slf in ps['params']:
+        if slf:
+            plist.append('self' if slf == 'self' else '&self')
+        else:
+            plist.append('%s: %s' % (nm, ty))
+            args.append(nm)
+    ret = ps['ret'] or '()'
+    n = ps['name']
+    has_self = any(slf for _, _, slf in ps['params'])
+    decl = '    spec fn %s_pre(%s) -> bool;\n' % (n, ', '.join(plist))
+    decl += '    spec fn %s_post(%s) -> bool;\n' % (n, ', '.join(plist + ['r: %s' % ret]))
+    recv = 'self.' if has_self else 'Self::'
+    req = '%s%s_pre(%s)' % (recv, n, ', '.join(args))
+    ens = '%s%s_post(%s)' % (recv, n, ', '.join(args + ['r']))
+    return decl, req, ens, plist, ret
+
+
+def weave_fn(item_text, key, contract, mode, em, no_requires=False):
     """Emit the function `item_text` with `contract` woven in.
     mode: 'F' (forward: requires pre && ok, ensures post) or
           'D' (dev-profile partial correctness: requires pre, ensures ok && post)."""
@@ -274,11 +366,11 @@ def weave_fn(item_text, key, contract, mode, em, in_trait_impl_of_std_op=False, 
         requires.append(('pre', p))
     if c.ok is not None:
         if mode == 'F':
-            for p in c.ok:
-                requires.append(('ok', p))
+            for n, p in c.ok:
+                requires.append((n, p))
         else:
-            for i, p in enumerate(c.ok):
-                ensures.append(('ok%d' % i, p))
+            for n, p in c.ok:
+                ensures.append((n, p))
     for name, e in c.post:
         ensures.append((name, e))
     attrs = ''
@@ -286,13 +378,13 @@ def weave_fn(item_text, key, contract, mode, em, in_trait_impl_of_std_op=False, 
         attrs += a + '\n'
     if c.rlimit:
         attrs += '#[verifier::rlimit(%s)]\n' % c.rlimit
-    if c.stub:
+    is_stub = c.stub or (c.stub_in_D and mode == 'D')
+    if is_stub:
         attrs += '#[verifier::external_body]\n'
     em.emit(attrs + sig2, ('fn', key))
-    if in_trait_impl_of_std_op:
-        # requires come through the *SpecImpl block; only extra ensures allowed here
+    if no_requires:
+        # trait impl methods: requires come from the trait (ghost members / *SpecImpl); extra ensures allowed
         requires = []
-        ensures = [(n, e) for (n, e) in ensures if n != '__value__']
     if requires:
         em.emit('    requires', ('fn', key))
         for n, p in requires:
@@ -304,7 +396,7 @@ def weave_fn(item_text, key, contract, mode, em, in_trait_impl_of_std_op=False, 
     if body is None:
         em.emit(';', ('fn', key))
         return
-    if c.stub:
+    if is_stub:
         em.emit('{ unimplemented!() }', ('fn', key))
         return
     body = weave_loops(body, c.loops, key)
@@ -393,6 +485,7 @@ class Unit:
         self.specs = list(specs)
         self.uses = list(uses)
         self.entries = []
+        self.crate_traits = set()
         self.fn_contracts = {}   # key -> Contract (for accounting)
 
     # -- declaration API used by units/*.py
@@ -416,11 +509,21 @@ class Unit:
             if c is not None:
                 self.fn_contracts[key + '::' + mname] = c
 
-    def trait(self, src, key, methods, ghost=None):
+    def inherent(self, src, key, members):
+        """Selected members of (possibly several) inherent impl blocks with header `key`.
+        members: {fn name or 'const NAME': Contract or None}."""
+        e = Entry(src, key, members, kind='inherent')
+        self.entries.append(e)
+        for mname, c in members.items():
+            if c is not None:
+                self.fn_contracts[key + '::' + mname] = c
+
+    def trait(self, src, key, methods=None, ghost=None):
         """Include a trait declaration; methods: {fn name: Contract}; ghost: extra text (spec fn decls)."""
         e = Entry(src, key, methods, kind='trait')
         e.extra = ghost
         self.entries.append(e)
+        self.crate_traits.add(key.split('trait ')[-1])
 
     def raw(self, text, tag=None):
         self.entries.append(Entry(None, tag, kind='raw', raw=text))
@@ -452,13 +555,16 @@ class Unit:
             it = idx.get(e.key)
             if it is None:
                 raise AnchorLost('item not found in expansion of %s: %s' % (e.src, e.key))
-            if isinstance(it, list):
+            if isinstance(it, list) and e.kind != 'inherent':
                 raise AnchorLost('ambiguous item key: %s' % e.key)
             if e.kind == 'item':
                 t = rewrite_body(strip_attrs_and_comments(it.text))
                 if it.kind in ('struct', 'enum'):
                     derives = _derives_for(idx, it)
                     t = derives + (t if t.startswith('pub') else 'pub ' + t)
+                    if it.kind == 'struct':
+                        # R2: visibility is dropped (single flat namespace): fields become pub
+                        t = re.sub(r'(?m)^(\s*)(?!pub\b)([a-z_][A-Za-z0-9_]*\s*:)', r'\1pub \2', t)
                 elif it.kind in ('const', 'trait', 'type'):
                     t = 'pub ' + t if not t.startswith('pub') else t
                 em.emit(t, ('item', e.key))
@@ -469,6 +575,8 @@ class Unit:
                 weave_fn(_pubify(it), e.key, e.contract, mode, em)
             elif e.kind in ('impl', 'trait'):
                 self._emit_impl(e, it, mode, em, meta)
+            elif e.kind == 'inherent':
+                self._emit_inherent(e, it, mode, em, meta)
         em.emit('} // verus!')
         em.emit('fn main() {}')
         text, linemap = em.render()
@@ -476,20 +584,22 @@ class Unit:
 
     def _emit_impl(self, e, it, mode, em, meta):
         methods = e.contract
+        header = rewrite_body(strip_attrs_and_comments(it.header))
+        if e.kind == 'trait':
+            self._emit_trait_decl(e, it, header, mode, em, meta)
+            return
+        hp = parse_impl_header(it.header)
+        trait = hp['trait']
         if e.spec_impl is not None:
             si = e.spec_impl(mode) if callable(e.spec_impl) else e.spec_impl
             em.emit(si, ('specimpl', e.key))
-        header = rewrite_body(strip_attrs_and_comments(it.header))
-        if e.kind == 'trait' and not header.startswith('pub'):
-            header = 'pub ' + header
+        elif trait in STD_TRAITS:
+            self._emit_std_specimpl(e, it, hp, mode, em)
         em.emit(header + ' {', ('impl', e.key))
         if getattr(e, 'extra', None):
             ex = e.extra(mode) if callable(e.extra) else e.extra
             em.emit(ex, ('impl', e.key))
-        std_op = False
-        hm = re.match(r'(unsafe )?impl(<[^>]*>)? (\w+)', it.header)
-        if hm and hm.group(3) in STD_OP_TRAITS:
-            std_op = True
+        is_crate_trait = trait in self.crate_traits
         seen = set()
         for ch in it.children:
             if ch.kind == 'fn':
@@ -498,13 +608,179 @@ class Unit:
                     raise AnchorLost('method %s has no contract entry (unit %s)' % (k, self.name))
                 seen.add(ch.name)
                 meta['functions'][k] = _fn_meta(ch, e.src)
-                weave_fn(ch.text, k, methods[ch.name], mode, em, in_trait_impl_of_std_op=False)
+                c = methods[ch.name]
+                if is_crate_trait and c is not None:
+                    em.emit(self._ghost_defs(ch, c, mode), ('ghost', k))
+                weave_fn(ch.text, k, c, mode, em, no_requires=(trait is not None))
             else:
                 em.emit(rewrite_body(strip_attrs_and_comments(ch.text)), ('impl', e.key))
         missing = set(methods) - seen
         if missing:
             raise AnchorLost('contracted methods missing from %s: %s' % (e.key, sorted(missing)))
         em.emit('}', ('impl', e.key))
+
+    def _ghost_defs(self, ch, c, mode):
+        text = rewrite_body(strip_attrs_and_comments(ch.text))
+        sig, _ = rsx.fn_parts(text)
+        decl, req, ens, plist, ret = ghost_decls(sig)
+        n = parse_sig(sig)['name']
+        pre = list(c.pre)
+        post = [x for (_, x) in c.post]
+        if c.ok is not None:
+            if mode == 'F':
+                pre += [x for (_, x) in c.ok]
+            else:
+                post = [x for (_, x) in c.ok] + post
+        rn = c.ret
+        out = '    open spec fn %s_pre(%s) -> bool { %s }\n' % (n, ', '.join(plist), _conj(pre))
+        out += '    open spec fn %s_post(%s) -> bool { %s }\n' % (n, ', '.join(plist + ['%s: %s' % (rn, ret)]), _conj(post))
+        return out
+
+    def _emit_trait_decl(self, e, it, header, mode, em, meta):
+        if not header.startswith('pub'):
+            header = 'pub ' + header
+        em.emit(header + ' {', ('impl', e.key))
+        for ch in it.children:
+            if ch.kind != 'fn':
+                em.emit(rewrite_body(strip_attrs_and_comments(ch.text)), ('impl', e.key))
+                continue
+            text = rewrite_body(strip_attrs_and_comments(ch.text))
+            sig, body = rsx.fn_parts(text)
+            decl, req, ens, plist, ret = ghost_decls(sig)
+            em.emit(decl, ('impl', e.key))
+            k = e.key + '::' + ch.name
+            c = Contract(pre=[req], post=[('trait.' + ch.name, ens)])
+            if body is not None:
+                # default method body: verified against the trait-level contract
+                meta['functions'][k] = _fn_meta(ch, e.src)
+                dc = (e.contract or {}).get(ch.name)
+                if dc is not None:
+                    c.entry = dc.entry
+            weave_fn(ch.text, k, c, mode, em)
+        em.emit('}', ('impl', e.key))
+
+    def _emit_std_specimpl(self, e, it, hp, mode, em):
+        st = STD_TRAITS[hp['trait']]
+        methods = e.contract
+        mname = st['m']
+        c = methods.get(mname)
+        if c is None:
+            return
+        ch = [x for x in it.children if x.kind == 'fn' and x.name == mname]
+        if not ch:
+            raise AnchorLost('%s: method %s missing' % (e.key, mname))
+        text = rewrite_body(strip_attrs_and_comments(ch[0].text))
+        sig, _ = rsx.fn_parts(text)
+        ps = parse_sig(sig)
+        plist = []
+        for nm, ty, slf in ps['params']:
+            plist.append(slf if slf else '%s: %s' % (nm, ty))
+        targs = hp['trait_args']
+        gen = hp['generics'] or ''
+        where = (' where ' + hp['where']) if hp['where'] else ''
+        out = 'impl%s %s%s for %s%s {\n' % (gen, st['si'], targs, hp['self_ty'], where)
+        if c.value is None:
+            out += '    open spec fn %s() -> bool { false }\n' % st['obeys']
+            val = 'arbitrary()'
+        else:
+            out += '    open spec fn %s() -> bool { true }\n' % st['obeys']
+            val = c.value
+        if st.get('req'):
+            pre = list(c.pre)
+            if c.ok is not None and mode == 'F':
+                pre += [x for (_, x) in c.ok]
+            out += '    open spec fn %s(%s) -> bool { %s }\n' % (st['req'], ', '.join(plist), _conj(pre))
+        ret = c.out_type or ps['ret']
+        out += '    open spec fn %s(%s) -> %s { %s }\n' % (st['spec'], ', '.join(plist), ret, val)
+        out += '}\n'
+        em.emit(rewrite_body(out), ('specimpl', e.key))
+
+
+def _conj(xs):
+    if not xs:
+        return 'true'
+    return ' && '.join('(%s)' % x for x in xs)
+
+
+def parse_impl_header(h):
+    """`impl<G> Trait<Args> for SelfTy where W` -> parts (trait None for inherent impls)."""
+    m = re.match(r'(unsafe\s+)?impl\s*', h)
+    rest = h[m.end():]
+    gen = None
+    if rest.startswith('<'):
+        # generics: match angle brackets
+        depth = 0
+        for i, ch in enumerate(rest):
+            if ch == '<':
+                depth += 1
+            elif ch == '>':
+                depth -= 1
+                if depth == 0:
+                    gen = rest[:i + 1]
+                    rest = rest[i + 1:].strip()
+                    break
+    where = None
+    wm = re.search(r'\bwhere\b', rest)
+    if wm:
+        where = rest[wm.end():].strip().rstrip(',').strip()
+        rest = rest[:wm.start()].strip()
+    fm = re.search(r'\sfor\s', ' ' + rest)
+    if not fm:
+        return {'generics': gen, 'trait': None, 'trait_args': '', 'self_ty': rest.strip(), 'where': where}
+    tr = rest[:fm.start()].strip()
+    self_ty = rest[fm.end() - 1:].strip()
+    tm = re.match(r'([A-Za-z_:][A-Za-z0-9_:]*)(<.*>)?$', tr)
+    tname = tm.group(1).split('::')[-1]
+    return {'generics': gen, 'trait': tname, 'trait_args': tm.group(2) or '', 'self_ty': self_ty, 'where': where}
+
+
+STD_TRAITS = {}
+for _t, _m in (('Add', 'add'), ('Sub', 'sub'), ('Mul', 'mul'), ('Div', 'div'), ('Rem', 'rem'), ('Neg', 'neg')):
+    STD_TRAITS[_t] = {'si': 'vstd::std_specs::ops::%sSpecImpl' % _t, 'obeys': 'obeys_%s_spec' % _m,
+                      'req': '%s_req' % _m, 'spec': '%s_spec' % _m, 'm': _m}
+for _t, _m in (('AddAssign', 'add_assign'), ('SubAssign', 'sub_assign'), ('MulAssign', 'mul_assign'),
+               ('DivAssign', 'div_assign'), ('RemAssign', 'rem_assign')):
+    STD_TRAITS[_t] = {'si': 'vstd::std_specs::ops::%sSpecImpl' % _t, 'obeys': 'obeys_%s_spec' % _m,
+                      'req': '%s_req' % _m, 'spec': '%s_spec' % _m, 'm': _m}
+STD_TRAITS['PartialEq'] = {'si': 'vstd::std_specs::cmp::PartialEqSpecImpl', 'obeys': 'obeys_eq_spec', 'req': None,
+                           'spec': 'eq_spec', 'm': 'eq'}
+STD_TRAITS['PartialOrd'] = {'si': 'vstd::std_specs::cmp::PartialOrdSpecImpl', 'obeys': 'obeys_partial_cmp_spec',
+                            'req': None, 'spec': 'partial_cmp_spec', 'm': 'partial_cmp'}
+STD_TRAITS['Ord'] = {'si': 'vstd::std_specs::cmp::OrdSpecImpl', 'obeys': 'obeys_cmp_spec', 'req': None,
+                     'spec': 'cmp_spec', 'm': 'cmp'}
+STD_TRAITS['From'] = {'si': 'vstd::std_specs::convert::FromSpecImpl', 'obeys': 'obeys_from_spec', 'req': None,
+                      'spec': 'from_spec', 'm': 'from'}
+STD_TRAITS['TryFrom'] = {'si': 'vstd::std_specs::convert::TryFromSpecImpl', 'obeys': 'obeys_try_from_spec',
+                         'req': None, 'spec': 'try_from_spec', 'm': 'try_from'}
+
+
+def _emit_inherent(self, e, it, mode, em, meta):
+    blocks = it if isinstance(it, list) else [it]
+    members = e.contract
+    header = rewrite_body(strip_attrs_and_comments(blocks[0].header))
+    em.emit(header + ' {', ('impl', e.key))
+    seen = set()
+    for b in blocks:
+        for ch in b.children:
+            nm = ch.name if ch.kind == 'fn' else '%s %s' % (ch.kind, ch.name)
+            if nm not in members:
+                continue
+            if nm in seen:
+                raise AnchorLost('member %s occurs twice in %s' % (nm, e.key))
+            seen.add(nm)
+            if ch.kind == 'fn':
+                k = e.key + '::' + ch.name
+                meta['functions'][k] = _fn_meta(ch, e.src)
+                weave_fn(ch.text, k, members[nm], mode, em)
+            else:
+                em.emit(rewrite_body(strip_attrs_and_comments(ch.text)), ('impl', e.key))
+    missing = set(members) - seen
+    if missing:
+        raise AnchorLost('members missing from %s: %s' % (e.key, sorted(missing)))
+    em.emit('}', ('impl', e.key))
+
+
+Unit._emit_inherent = _emit_inherent
 
 
 def _pubify(it):
